@@ -3,6 +3,7 @@
 package cl
 
 import (
+	"math"
 	"math/big"
 
 	"github.com/ohler55/slip"
@@ -46,7 +47,14 @@ func (f *Multiply) Call(s *slip.Scope, args slip.List, depth int) (product slip.
 		arg, product = slip.NormalizeNumber(arg, product)
 		switch ta := arg.(type) {
 		case slip.Fixnum:
-			product = ta * product.(slip.Fixnum)
+			tp := product.(slip.Fixnum)
+			prod := ta * tp
+			if ta != 0 && (prod/ta != tp || (ta == -1 && tp == math.MinInt64)) {
+				// Overflow so continue as bignums.
+				product = (*slip.Bignum)(new(big.Int).Mul(big.NewInt(int64(ta)), big.NewInt(int64(tp))))
+			} else {
+				product = prod
+			}
 		case slip.SingleFloat:
 			product = ta * product.(slip.SingleFloat)
 		case slip.DoubleFloat:
